@@ -382,9 +382,10 @@ theorem facts_fresh : (Facts.staleFacts.all fun n => !["choquetEps"].contains n)
     model/weights.go:Weights.Copy ........................... copy_is_identity, mergeDisjoint_map_order (other = [])
     model/weights.go:Weights.Merge (loop 1, copy) ........... mergeDisjoint_map_order, mergeParams_map_order
     model/weights.go:Weights.Merge (loop 2, add) ............ mergeDisjoint_map_order, mergeParams_map_order
-    anchoring/anchoring.go:matchScalingWithBounding ......... per-key copy: mergeDisjoint_map_order shape; differential repetition
-    anchoring/ideal-reference-…:extractCriteriaValues ....... per-key copy; differential repetition
-    anchoring/ideal-reference-…:prepareCriteriaWithCoefficients  valuesRange_map_order for the ranges it calls; differential repetition
+    anchoring/anchoring.go:matchScalingWithBounding ......... per-key pairing of each scale with the one bounding (the model passes
+                                                             `b` and `sc` separately: nothing to order); inlineLoop_map_order consumes it
+    anchoring/ideal-reference-…:extractCriteriaValues ....... findBest_map_order (model `findBest`: final `best.map`)
+    anchoring/ideal-reference-…:prepareCriteriaWithCoefficients  findBest_map_order (model `findBest`: `best0` from the first alternative's map)
     anchoring/inline-anchoring-applier.go:ApplyAnchoring .... inlineLoop_map_order, inlineOne_map_order (model `inlineStep`/`inlineOne`)
     anchoring/inline-anchoring-applier.go:arithmeticAverage ×2  avgInner_map_order, arithmeticAverage_map_order (model `arithmeticAverage`)
     criteria-mixing/criteria-mixing.go:criteriaToMix.mix .... mixValues_map_order (+ _lookups) (model `mixValues`)
@@ -453,6 +454,15 @@ theorem arithmeticAverage_map_order (points points' : List (String × KMap α))
     (hz : ∀ p ∈ points.zip points', p.1.2.Perm p.2.2 ∧ (p.1.2.map Prod.fst).Nodup) :
     R.Agree KMap.LookupEq (arithmeticAverage points) (arithmeticAverage points') :=
   MapOrderAnch.arithmeticAverage_map_order points points' hl hz
+
+/-- **ideal / nadir reference alternative** (`prepareCriteriaWithCoefficients` ranges over the first anchoring
+    alternative's value map, `extractCriteriaValues` over the resulting map): same reference values (as lookups)
+    and same verdict for every listing of that map -/
+theorem findBest_map_order (pred : Crit α → α × α → α × α → Bool) (name : String) (a0 a0' : Alt α) (k0 : α)
+    (rest : List (Alt α × α)) (crits : List (Crit α)) (h : a0.vals.Perm a0'.vals)
+    (hk : (a0.vals.map Prod.fst).Nodup) :
+    R.Agree AltEq (findBest pred name ((a0, k0) :: rest) crits) (findBest pred name ((a0', k0) :: rest) crits) :=
+  MapOrderAnch.findBest_map_order pred name a0 a0' k0 rest crits h hk
 
 /-- the hypotheses are satisfiable and the conclusion is not vacuous: two listings of a two-key map -/
 example : R.Agree List.Perm (mixValues (1/4 : Rat) [("a", 1), ("b", 2)] [("a", 3), ("b", 5)])
